@@ -2,7 +2,8 @@ import DoitModel.Proofs.Sel
 /-! helper lemmas for the selection model (M8): re-initialisation, `--single`, closure -/
 namespace DoitModel.Sel
 
-/-- when the loop never meets a task whose options are already initialised, the code and the specification agree -/
+/-- when the loop never meets a task whose options are already initialised, the pinned code (before dcfe778) and the
+    current code agree -/
 theorem pf_head_eq_spec (ts : List Task) (n : Nat) (ini args : List Tok) (h : reinitB ts n ini args = false) :
     pf ts true n ini args = pf ts false n ini args := by
   induction n generalizing ini args with
@@ -24,7 +25,7 @@ theorem pf_head_eq_spec (ts : List Task) (n : Nat) (ini args : List Tok) (h : re
           by_cases hi : ini.contains a = true
           · simp only [hi, if_true] at h; cases h
           · have hi' : ini.contains a = false := by simpa using hi
-            simp only [hi', Bool.false_eq_true, if_false, Bool.and_false] at h ⊢
+            simp only [hi', Bool.false_eq_true, if_false] at h ⊢
             cases hd : dropOpts t.params rest with
             | none => rfl
             | some rest' =>
